@@ -36,7 +36,7 @@ THEOREMS = {
     "C14": ["C14_interrupted_stream", "C05_truncated_frame_is_error", "C03_decoder_follows_format"],
     "C16": ["C16_no_fabricated_frame", "C16_syncless_garbage_costs_no_frame", "C16_self_describing"],
     "C17": ["C17_parse_inverts_write", "C17_write_inverts_parse", "C17_subframe_write_inverts_parse", "C17_subframe_expands_to_block_size", "C17_parsed_frames_are_well_formed", "C17_parsed_subframes_expand_to_block_size", "ex_frame_wf", "ex_frame_roundtrip"],
-    "C19": ["C19_encoder_frame_bound", "C19_encoder_subframe_bound", "C19_subframe_bound", "C19_frame_bound", "C17_parse_inverts_write"],
+    "C19": ["C19_encoder_frame_bound", "C19_encoder_constant_block", "C19_encoder_subframe_bound", "C19_subframe_bound", "C19_frame_bound", "C17_parse_inverts_write"],
 }
 
 
